@@ -128,7 +128,41 @@ func crashHandlerFor(b batchSpec) crashHandler {
 		case strings.Contains(stderr, "fatal error:"):
 			i := strings.Index(stderr, "fatal error:")
 			return mk("runtime_fatal", "", clip(stderr[i:], 1200))
+		case strings.Contains(stderr, "\npanic: ") || strings.HasPrefix(stderr, "panic: "):
+			// a panic that ended the worker: if it was raised inside zlint's own code (the first frame that is not the
+			// runtime's), a registry read or a lint call panicked outside every recover - under this GOMAXPROCS, this workload
+			if site := panicOrigin(stderr); strings.HasPrefix(site, "github.com/zmap/zlint/v3/") {
+				i := strings.Index(stderr, "panic: ")
+				return mk("panic", strings.TrimPrefix(site, "github.com/zmap/zlint/v3"), "a panic raised inside zlint ended the process: "+clip(stderr[i:], 1200))
+			}
 		}
 		return nil
 	}
+}
+
+// panicOrigin: the function of the first frame below the runtime's own in the trace of the panicking goroutine.
+func panicOrigin(stderr string) string {
+	i := strings.Index(stderr, "panic: ")
+	if i < 0 {
+		return ""
+	}
+	rest := stderr[i:]
+	j := strings.Index(rest, "\ngoroutine ")
+	if j < 0 {
+		return ""
+	}
+	lines := strings.Split(rest[j+1:], "\n")
+	for _, ln := range lines[1:] {
+		if ln == "" {
+			break
+		}
+		if strings.HasPrefix(ln, "\t") || strings.HasPrefix(ln, "panic(") || strings.HasPrefix(ln, "runtime.") || strings.HasPrefix(ln, "runtime/") {
+			continue
+		}
+		if k := strings.LastIndex(ln, "("); k > 0 {
+			ln = ln[:k]
+		}
+		return ln
+	}
+	return ""
 }
